@@ -145,6 +145,13 @@ CLAIMED = {
             "CMHost.tla on every trace, disagreement = tool error); tracer hook placement. Exhaustive only within the per-scenario "
             "DFS bound; interleavings are limited to the scenario families of vlib/async_scen.py.",
             "5 C23"),
+    "C32": ("model_checking",
+            "TLA+ MacroDeps.tla: crate layouts x macro invocation forms and the files WIT resolution reads (GEN + sanity); the real "
+            "generate! macro expanded by the real rustc under strace for every layout; observation (opened, dep-info) judged by TLC",
+            "All 282 valid (layout, form) pairs: root files, directory and single-file deps, nested deps, non-WIT files, second path; "
+            "forms default / path / file / list / world-in-path / inline / inline+path / inline without wit dir.",
+            "Trusted: strace's view of opened files; rustc's dep-info is what cargo's freshness check reads.",
+            "5 C32"),
     "C33": ("model_checking",
             "TLA+ spec CheckMode.tla; TLC enumerates all output-directory states over <=3 (thorough 4) generated files; the real "
             "CLI runs --check on each; observations judged by the spec (VAL)",
@@ -170,6 +177,31 @@ CLAIMED = {
             "equality judgement; the verdict is byte comparison across processes.",
             "Trusted: independent processes really differ in hash seeds/ASLR; sha256.",
             "5 C15"),
+    "C05": ("model_checking",
+            "TLA+ CallConv/CanonABI evaluated by TLC over MC_RustExec.tla = canonical core-level encoding of arguments and results at "
+            "pointer width 8 (spec->impl); the real Rust bindings are compiled natively, their core imports routed to a type-agnostic host "
+            "(harness/vhost) that compares / builds real memory from the spec's cells; exports called through their real symbols",
+            "f(x: T) -> T for 162 types (two-level closure over all value primitives, records, variants, enums, flags, options, results, "
+            "lists, tuples) x every boundary value, plus the multi-parameter functions crossing the 16/1 flattening limits; 810 cases "
+            "quick, both directions each. Lifted values are judged by lowering them again through a second import.",
+            "Trusted: rustc; the textual rewrite of the generator's own non-wasm32 import stubs; only pointer width 8 is executed "
+            "(W=4 is covered for the shared generator by C01-C03). Handles/resources and async are outside (C07, C08).",
+            "12.5"),
+    "C06": ("model_checking",
+            "same run as C05; judged by a counting global allocator that tags every block guest/host: nothing the bindings allocate may "
+            "outlive a call + post-return, blocks handed over by the host must be freed exactly once with their layout, no unknown frees",
+            "the same 810 cases x {import direction, export direction + real post-return}.",
+            "Trusted: the ledger (harness/vhost); stack and static memory are not judged.",
+            "12.5"),
+    "C09": ("exploration",
+            "WorldGrammar.tla worlds (TLC GEN) + adversarial-name worlds + corpus -> real Rust generator x all crates/test variants + "
+            "--raw-strings -> rustc (host target, -Dwarnings, editions 2021/2024, real wit_bindgen runtime) and ComponentEncoder on the "
+            "declared surface with the bindings' own embedded component-type section",
+            "Every third (constructor, position, role) cell in the quick tier, all keyword / prelude / temporary-name / case-folding "
+            "worlds, tests/codegen; the verdicts are rustc's and wit-component's.",
+            "No wasm32 Rust target in the sandbox: cfg(target_arch = \"wasm32\") items are only parsed by rustc and are judged through "
+            "the scanner + encoder instead.",
+            "5 C09"),
     "C12": ("exploration",
             "WorldGrammar.tla worlds (TLC GEN) + adversarial-name worlds + corpus -> real C generator -> clang --target=wasm32 (-Werror) -> "
             "wasm-ld with the component-type object -> wit_component::ComponentEncoder with validation; decoded world and declared string "
